@@ -1,0 +1,156 @@
+//go:build verif
+
+// Contracts for the deductive checker in /verif (comment-only; compiled only with -tags verif).
+// C10 (SEQUENTIAL PART ONLY): the start/stop state machine of a data source, function by function.
+//
+// What these contracts can say: every path through Start leaves the source Inactive with a balanced wait group when
+// it fails, and Active with exactly one pending Done when it succeeds; the state lock is released on every path of
+// every function; Stop never waits for the data loop while it holds the state lock; the wait group is released exactly
+// once per run.  What they cannot say: anything quantified over interleavings (that every concurrent Stop returns, that
+// worker goroutines exit, absence of deadlock in general) -- see DESIGN.md section 8.
+//
+// Ghost state: sync.Mutex.held, sync.WaitGroup.n (counter); for calls through the DataSource interface the abstract
+// state of a source is kept in ghost maps indexed by srcid(source): lcstate (0 Inactive, 1 Starting, 2 Active,
+// 3 Stopping) and lcwg (wait-group counter).  The interface contracts below mirror the verified contracts of the
+// AnySource methods that implement them.
+
+package dastard
+
+//@ ghost field sync.Mutex.held bool
+//@ ghost field sync.WaitGroup.n mathint
+
+//@ extern func (*sync.Mutex).Lock
+//@   requires notheld: !m.held
+//@   ensures m.held
+//@   modifies m.held
+//@ extern func (*sync.Mutex).Unlock
+//@   requires held: m.held
+//@   ensures !m.held
+//@   modifies m.held
+//@ extern func (*sync.WaitGroup).Add
+//@   ensures wg.n == old(wg.n) + delta
+//@   modifies wg.n
+//@ extern func (*sync.WaitGroup).Done
+//@   requires pending: wg.n > 0
+//@   ensures wg.n == old(wg.n) - 1
+//@   modifies wg.n
+// Wait returns when the counter is zero (the decrements come from other goroutines: rely condition).
+//@ extern func (*sync.WaitGroup).Wait
+//@   ensures wg.n == 0
+//@   modifies wg.n
+
+// ---- the implementing methods of AnySource (verified) ----
+//@ func (*AnySource).GetState
+//@   props C10
+//@   requires !ds.sourceStateLock.held
+//@   ensures result == ds.sourceState && !ds.sourceStateLock.held
+//@   modifies ds.sourceStateLock.held
+//@ func (*AnySource).SetStateStarting
+//@   props C10
+//@   requires !ds.sourceStateLock.held
+//@   ensures (old(ds.sourceState) == 0 ==> result == nil && ds.sourceState == 1) && (old(ds.sourceState) != 0 ==> result != nil && ds.sourceState == old(ds.sourceState)) && !ds.sourceStateLock.held
+//@   modifies ds.sourceState, ds.sourceStateLock.held
+//@ func (*AnySource).SetStateInactive
+//@   props C10
+//@   requires !ds.sourceStateLock.held
+//@   ensures result == nil && ds.sourceState == 0 && !ds.sourceStateLock.held
+//@   modifies ds.sourceState, ds.sourceStateLock.held
+//@ func (*AnySource).RunDoneActivate
+//@   props C10
+//@   requires !ds.sourceStateLock.held
+//@   ensures ds.sourceState == 2 && ds.runDone.n == old(ds.runDone.n) + 1 && !ds.sourceStateLock.held
+//@   modifies ds.sourceState, ds.sourceStateLock.held, ds.runDone.n
+//@ func (*AnySource).RunDoneDeactivate
+//@   props C10
+//@   requires !ds.sourceStateLock.held && ds.runDone.n > 0
+//@   ensures ds.sourceState == 0 && ds.runDone.n == old(ds.runDone.n) - 1 && !ds.sourceStateLock.held
+//@   modifies ds.sourceState, ds.sourceStateLock.held, ds.runDone.n
+// RunDoneWait must not be called with the state lock held: the data loop needs the lock to deactivate.
+// When it returns, the data loop has run its deferred RunDoneDeactivate (rely condition): counter zero, source Inactive.
+//@ func (*AnySource).RunDoneWait
+//@   trusted
+//@   requires nolock: !ds.sourceStateLock.held
+//@   ensures ds.runDone.n == 0 && ds.sourceState == 0
+//@   modifies ds.runDone.n, ds.sourceState
+
+//@ func closeIfOpen
+//@   trusted
+//@   modifies nothing
+
+// Stop: the lock is released on every path and never held across the wait; an inactive source is refused, a stopping
+// one is left alone, an active one ends Inactive with writing stopped.  (Stop on a Starting source panics by design.)
+//@ func (*AnySource).Stop
+//@   props C10
+//@   nosafety
+//@   requires !ds.sourceStateLock.held && ds.sourceState != 1 && 0 <= ds.sourceState && ds.sourceState <= 3
+//@   requires writing: !IOFaults() && InvW(ds) && InvS(ds.writingState) && ChanTablesOK(ds)
+//@   ensures writers: InvW(ds) && InvS(ds.writingState)
+//@   ensures unlocked: !ds.sourceStateLock.held
+//@   ensures refused: old(ds.sourceState) == 0 ==> result != nil && ds.sourceState == 0
+//@   ensures already: old(ds.sourceState) == 3 ==> result == nil && ds.sourceState == 3
+//@   ensures stopped: old(ds.sourceState) == 2 ==> result == nil && ds.sourceState == 0 && ds.runDone.n == 0
+//@   opt noframe
+
+// ---- the same state machine seen through the DataSource interface (used by Start) ----
+//@ ufunc srcid(x DataSource) int
+//@ ghost var lcstate intmap
+//@ ghost var lcwg intmap
+//@ func DataSource.SetStateStarting
+//@   trusted
+//@   ensures (old(lcstate[srcid(self)]) == 0 ==> result == nil && lcstate == upd(old(lcstate), srcid(self), 1)) && (old(lcstate[srcid(self)]) != 0 ==> result != nil && lcstate == old(lcstate))
+//@   modifies lcstate
+//@ func DataSource.SetStateInactive
+//@   trusted
+//@   ensures lcstate == upd(old(lcstate), srcid(self), 0)
+//@   modifies lcstate
+//@ func DataSource.RunDoneActivate
+//@   trusted
+//@   ensures lcstate == upd(old(lcstate), srcid(self), 2) && lcwg == upd(old(lcwg), srcid(self), old(lcwg[srcid(self)]) + 1)
+//@   modifies lcstate, lcwg
+//@ func DataSource.RunDoneDeactivate
+//@   trusted
+//@   requires pending: lcwg[srcid(self)] > 0
+//@   ensures lcstate == upd(old(lcstate), srcid(self), 0) && lcwg == upd(old(lcwg), srcid(self), old(lcwg[srcid(self)]) - 1)
+//@   modifies lcstate, lcwg
+// The preparation steps do not touch the life-cycle state (they are verified or trusted elsewhere).
+//@ func DataSource.Sample
+//@   trusted
+//@   modifies nothing
+//@ func DataSource.PrepareChannels
+//@   trusted
+//@   modifies nothing
+//@ func DataSource.PrepareRun
+//@   trusted
+//@   modifies nothing
+//@ func DataSource.StartRun
+//@   trusted
+//@   modifies nothing
+
+// Start: every failing path rolls back -- the source is Inactive again (if it was Inactive when Start was called) and
+// the wait group is balanced, so the same source can be started again; success leaves it Active with exactly one
+// pending Done (released by the data loop's deferred RunDoneDeactivate).
+//@ func Start
+//@   props C10
+//@   requires ds != nil && lcwg[srcid(ds)] >= 0
+//@   ensures failed: result != nil ==> lcwg[srcid(ds)] == old(lcwg[srcid(ds)]) && (old(lcstate[srcid(ds)]) == 0 ==> lcstate[srcid(ds)] == 0) && (old(lcstate[srcid(ds)]) != 0 ==> lcstate[srcid(ds)] == old(lcstate[srcid(ds)]))
+//@   ensures started: result == nil ==> old(lcstate[srcid(ds)]) == 0 && lcstate[srcid(ds)] == 2 && lcwg[srcid(ds)] == old(lcwg[srcid(ds)]) + 1
+//@   ensures others: forall k int :: {lcstate[k]} k != srcid(ds) ==> lcstate[k] == old(lcstate[k]) && lcwg[k] == old(lcwg[k])
+//@   modifies lcstate, lcwg
+
+//@ func DataSource.getNextBlock
+//@   trusted
+//@   modifies nothing
+//@ func DataSource.ProcessSegments
+//@   trusted
+//@   modifies nothing
+
+// The data loop releases the wait group exactly once and leaves the source Inactive on every way out (closed block
+// channel, error block; the deliberate panic on a processing error also runs the deferred call).
+//@ func CoreLoop
+//@   props C10
+//@   nosafety
+//@   opt noframe
+//@   requires ds != nil && lcwg[srcid(ds)] > 0
+//@   ensures released: lcwg[srcid(ds)] == old(lcwg[srcid(ds)]) - 1 && lcstate[srcid(ds)] == 0
+//@   loop 1
+//@     invariant lcwg == old(lcwg) && lcstate == old(lcstate)
